@@ -29,6 +29,7 @@ class Universe:
         self.cid = 0
         self.construct_failures = []
         self.layout_failures = []
+        self.skipped_negative = 0
 
     def add_term(self, t, configs, strategies=(True, False), model=True, **flags):
         try:
@@ -43,6 +44,11 @@ class Universe:
                     case, stream = G.layout_case(self.cid, t, d, W, fn, fd, smart, model=model, **flags)
                 except Exception as e:
                     self.layout_failures.append((t, W, fn, fd, smart, repr(e)))
+                    continue
+                if any(isinstance(x, G.SLine) and x.indent < 0 for x in stream):
+                    # the enclosing nest offsets sum to a negative indentation at a line break
+                    # (dedent past the left margin): outside the domain the properties speak about
+                    self.skipped_negative += 1
                     continue
                 self.cases.append(case)
                 self.meta[self.cid] = {'term': t, 'W': W, 'ribbon_frac': [fn, fd], 'smart': smart,
@@ -70,6 +76,12 @@ def build_universe(chk, classic, quick_sizes, thorough_sizes, n_random, n_big, f
             u.add_term(t, configs, **flags)
             nterms += 1
     chk.stage('universe.exhaustive', terms=nterms, max_nodes=exhaustive_to, cases=len(u.cases))
+    k0 = len(u.cases)
+    st = G.structured_terms(classic)
+    scfg = [c for c in configs if c[0] <= 12][:6] if tier_q else configs
+    for t in st:
+        u.add_term(t, scfg, **flags)
+    chk.stage('universe.structured', terms=len(st), cases=len(u.cases) - k0)
     rng = chk.rng
     k0 = len(u.cases)
     for i in range(n_random):
@@ -259,6 +271,7 @@ def check_c04(chk, args):
     chk.stage('verdict', accepted=len(u.cases) - len(rejected), known_finding=n_known,
               violations=len(chk.violations))
     pformat_documents(chk)
+    suite_traces(chk)
     # render clause
     import render_check
     render_check.run(chk, u)
@@ -325,8 +338,70 @@ def pformat_documents(chk):
         chk.sample({'pformat_document': metas[c['id']]})
 
 
+def suite_traces(chk):
+    """The repository's own tests as a trace source: every layout call the pinned tests make
+    (requests, attrs, dataclasses, IPython-compat and stdlib printers no generator of mine knows
+    about) is validated against LayoutSpec."""
+    import json
+    import subprocess
+    import sys
+    q = chk.tier == 'quick'
+    out = os.path.join(chk.workdir, 'suite_cases.ndjson')
+    files = ['tests/test_stdlib_definitions.py', 'tests/test_attrs.py', 'tests/test_dataclasses.py',
+             'tests/test_requests.py', 'tests/test_ipython_repr_pretty.py']
+    if not q:
+        files.append('tests/test_prettyprinter.py')
+    repo = os.environ.get('VERIF_REPO') or '/repo'
+    env = dict(os.environ, VERIF_SUITE_OUT=out, PYTHONHASHSEED='0',
+               PYTHONPATH=os.pathsep.join([repo, os.path.dirname(os.path.dirname(os.path.abspath(__file__)))]))
+    try:
+        p = subprocess.run([sys.executable, '-m', 'pytest', '-p', 'suite_plugin', '-q', '-p', 'no:cacheprovider',
+                            '-x', '--deselect', 'tests/test_requests.py::test_session',
+                            '--deselect', 'tests/test_prettyprinter.py::test_readable'] + files,
+                           cwd=repo, env=env, stdout=subprocess.PIPE, stderr=subprocess.STDOUT, text=True,
+                           timeout=1500)
+    except subprocess.TimeoutExpired:
+        chk.cov['suite_traces'] = 'skipped: the test run timed out'
+        return
+    if not os.path.exists(out):
+        chk.cov['suite_traces'] = 'skipped: no trace file (pytest said: %s)' % p.stdout[-300:]
+        return
+    cases = []
+    for i, l in enumerate(open(out)):
+        c = json.loads(l)
+        c['id'] = 5 * 10 ** 6 + i
+        cases.append(c)
+    if not cases:
+        chk.cov['suite_traces'] = 'no layout call recorded'
+        return
+    v, st = common.tlc_batch('LayoutSpec', CFG, cases, os.path.join(chk.workdir, 'suite'), tags=('ACCEPT', 'POS'),
+                             min_per_shard=20, heap='4g')
+    chk.add_model(st)
+    rejected = [c for c in cases if c['id'] not in v['ACCEPT']]
+    n_known = 0
+    if rejected:
+        v2 = rerun(chk, rejected, 'suite-relaxed', strict=False, diag=True)
+        kf = chk.match_finding('C04.forced', HLF)
+        for c in rejected:
+            m = {'test': c.get('test'), 'width': c['W'], 'nodes': len(c['nodes'])}
+            useds = [set(a[3][1]) for a in v2['ACCEPT'].get(c['id'], [])]
+            if useds and any(us == {HLF} for us in useds) and kf:
+                chk.known(kf)
+                n_known += 1
+            elif useds:
+                chk.violation('C04.forced', 'layout call made by the test-suite: forced-break rule violated: %r' % (m,), m)
+            else:
+                chk.violation('C04.core', 'layout call made by the test-suite (%s): stream is not a layout of the document; '
+                              'longest accepted prefix = %d' % (m['test'], longest_prefix(v2, c['id'])), m)
+    chk.cov['suite_traces'] = len(cases)
+    chk.cov['traces_validated_against_impl'] += len(cases)
+    chk.stage('test-suite traces', files=len(files), layout_calls=len(cases), rejected=len(rejected),
+              known_finding=n_known, states=st['distinct'], wall=round(st['wall'], 1))
+
+
 def account(chk, u, rule):
     chk.cov['evaluations'] = len(u.cases) + len(u.construct_failures) + len(u.layout_failures)
+    chk.cov['skipped_negative_total_indent'] = u.skipped_negative
     chk.cov['traces_validated_against_impl'] += len(u.cases)
     for c in u.cases:
         m = u.meta[c['id']]
